@@ -189,6 +189,23 @@ Proof.
   - apply spec_admits_iff in E2. apply admit_iff in E2. congruence.
 Qed.
 
+(* ---- histories: a later add() for a user replaces the password at once ----------------------------- *)
+Lemma beq_refl_auth (b : bytes) : beq b b = true.
+Proof. induction b as [|c b IH]; cbn; [reflexivity|]. rewrite Ascii.eqb_refl. exact IH. Qed.
+
+Theorem latest_registration_wins table u p2 : cred_lookup u (table ++ [(u, p2)]) = Some p2.
+Proof.
+  induction table as [|[u' p'] t IH]; cbn.
+  - rewrite beq_refl_auth. reflexivity.
+  - rewrite IH. reflexivity.
+Qed.
+
+Theorem rotation_effective table u p p2 :
+  verify (table ++ [(u, p2)]) u p2 = true /\ (beq p2 p = false -> verify (table ++ [(u, p2)]) u p = false).
+Proof.
+  unfold verify. rewrite latest_registration_wins. split; [apply beq_refl_auth | intros H; exact H].
+Qed.
+
 (* ---- refusal --------------------------------------------------------------------------------- *)
 
 (* every other request gets exactly: 401 with the challenge naming the realm, the page, the close *)
